@@ -2,7 +2,7 @@
 line-by-line transcription of overflow.go over wrapping W-bit arithmetic; property layer = "ok iff
 the mathematical result is representable, and then that result").
 (M) Apalache decides the *Exact invariants symbolically for every operand pair at W = 8..64,
-    signed and unsigned; TLC decides them explicitly on all 2^16 pairs at W = 8 (and 2^20 at W = 10).
+    signed and unsigned; TLC decides them explicitly on all 2^16 pairs at W = 8 (signed and unsigned).
 (R) TLC emits the property layer as tables (one row per left operand); harness/cmd/overflow replays
     every entry on the real int8/uint8 instantiations (all eight functions) and, through exact
     embeddings, on every wider type; Apalache boundary witnesses (OverflowW.tla: one operand pair per
@@ -109,10 +109,8 @@ def run(ctx):
     with ThreadPoolExecutor(max_workers=7 if quick else 8) as ex:
         # (M) explicit, W = 8: invariants on every pair + table emission
         for cfg in ("Overflow_s8.cfg", "Overflow_u8.cfg"):
-            jobs[("tlc", cfg)] = ex.submit(vlib.run_tlc, ctx, "MCOverflow", cfg, tags=("ROW",), timeout=900, workers=4)
-        if not quick:
-            for cfg in ("Overflow_s10.cfg", "Overflow_u10.cfg"):
-                jobs[("tlc", cfg)] = ex.submit(vlib.run_tlc, ctx, "MCOverflow", cfg, tags=(), timeout=1800, workers=4)
+            jobs[("tlc", cfg)] = ex.submit(vlib.run_tlc, ctx, "MCOverflow", cfg, tags=("ROW",), timeout=900, workers=4,
+                                            jvm=["-Djava.io.tmpdir=" + ctx.scratch])
         # (M) symbolic: every operand pair at full width
         for w in widths:
             for sg in (True, False):
